@@ -75,8 +75,32 @@ func genSchema(r *Rng, o *Out) (*jsonapi.Schema, []stype) {
 				o.stat("type.rels-without-fromtype")
 			}
 		}
+		reused := false
+		if !backed && r.chance(1, 5) {
+			// the application asked the type value for a resource BEFORE registering it, and
+			// afterwards goes on using its variable for something else: the schema's type is
+			// what was registered
+			_ = typ.New()
+			reused = true
+			o.stat("type.new-called-before-registration")
+		}
+		if !backed && r.chance(1, 6) {
+			// a soft type whose resources come from a prototype resource (its New or its Copy)
+			pt := copyTypeIndep(typ)
+			proto := &jsonapi.SoftResource{Type: &pt}
+			_ = proto.Attrs() // (used once: its lazily built value map exists before requests share it)
+			if r.bool() {
+				typ.NewFunc = proto.New
+			} else {
+				typ.NewFunc = proto.Copy
+			}
+			o.stat("type.soft-with-prototype")
+		}
 		putType(s, typ)
 		ts = append(ts, stype{typ, backed})
+		if reused {
+			typ.Name, typ.Attrs, typ.Rels, typ.NewFunc = "used-for-something-else", nil, nil, nil
+		}
 	}
 	if r.chance(1, 3) {
 		ts = append(ts, schemaWithPast(s, o))
